@@ -577,6 +577,16 @@ def _per_name_rule(repo, rep):
               "local by the same expression", construct="backup-same-name",
               detail=str(keys))
     # freshness of the identity source
+    okf, detail, f = names_object_fresh(repo)
+    rep.check(okf, "R05.2", f.qualname,
+              "every call builds and returns a new result (no "
+              "memoisation, no module-level table): the compiler names "
+              "its backup locals after the identity of each element's "
+              "own names object", construct="fresh-names-object",
+              where=L.where(f), detail=detail)
+
+
+def names_object_fresh(repo):
     for q in ("chameleon.tal.parse_defines",):
         f = repo.func(q)
         mod = f.module
@@ -601,10 +611,6 @@ def _per_name_rule(repo, rep):
                 shared.append(src(n))
             if isinstance(n, (ast.Global, ast.Nonlocal)):
                 shared.append(src(n))
-        rep.check(not deco and fresh and not shared, "R05.2", f.qualname,
-                  "every call builds and returns a new result (no "
-                  "memoisation, no module-level table): the compiler names "
-                  "its backup locals after the identity of each element's "
-                  "own names object", construct="fresh-names-object",
-                  where=L.where(f), detail="decorators %s, shared %s, "
-                  "returns fresh list: %s" % (deco, shared[:3], fresh))
+        return (not deco and fresh and not shared,
+                "decorators %s, shared %s, returns fresh list: %s" % (
+                    deco, shared[:3], fresh), f)
